@@ -2,24 +2,29 @@
 use crate::util::J;
 use crate::Ctx;
 
-pub mod c01;
-
-pub fn run(ctx: &mut Ctx) {
-    match ctx.prop.as_str() {
-        "C01" => c01::run(ctx),
-        other => {
-            eprintln!("unknown property {}", other);
-            std::process::exit(2);
+macro_rules! props {
+    ($($id:literal => $m:ident),* $(,)?) => {
+        $(pub mod $m;)*
+        pub fn run(ctx: &mut Ctx) {
+            match ctx.prop.as_str() {
+                $($id => $m::run(ctx),)*
+                other => { eprintln!("unknown property {}", other); std::process::exit(2); }
+            }
         }
-    }
+        pub fn replay(ctx: &mut Ctx, case: &J) {
+            match ctx.prop.as_str() {
+                $($id => $m::replay(ctx, case),)*
+                other => { eprintln!("unknown property {}", other); std::process::exit(2); }
+            }
+        }
+    };
 }
 
-pub fn replay(ctx: &mut Ctx, case: &J) {
-    match ctx.prop.as_str() {
-        "C01" => c01::replay(ctx, case),
-        other => {
-            eprintln!("unknown property {}", other);
-            std::process::exit(2);
-        }
-    }
+props! {
+    "C01" => c01,
+    "C02" => c02,
+    "C04" => c04,
+    "C11" => c11,
+    "C13" => c13,
+    "C14" => c14,
 }
